@@ -34,10 +34,11 @@ TRUSTED = [
     "(generator-free: no sources / generators; origin_repetitions not modelled); tied by this run's "
     "op-history correspondence (generator-bounded)",
     "CPython hash(): modelled as an abstract combiner Hc; C10_eq_iff assumes Hc injective (no 64-bit collision)",
-    "the ownership discipline Op.ok (children handed to a node are detached roots or own children; views are "
-    "not edited / copied / attached) is mirrored by harness/impl/arena_real.disciplined",
-    "PARTIAL: Inv preservation by split_end / prefix / copy.deepcopy(inner node) is not a theorem; this run evaluates the "
-    "verified checker invB (C10_invB_sound) on the model state after every op of every disciplined history instead",
+    "the ownership discipline Op.okS (children handed to a node are detached roots or own children; views are "
+    "not edited / copied / attached) is mirrored by harness/impl/arena_real.disciplined; Inv preservation is a "
+    "theorem for EVERY operation under it (C10_inv_step, C10_inv_reachable, incl. split_end / prefix / upward "
+    "deepcopy); evaluating the verified checker invB (C10_invB_sound) on the model state after every op of every "
+    "disciplined history is a per-run cross-check that the mirror of the discipline is right",
     "evolution/{crossover,mutation}.py, algorithm.py are not modelled: observed by snapshots only",
 ]
 
